@@ -326,6 +326,34 @@ def plain_strformat(tmpl, args, style):
     return StrV(chars) if used == len(args) else None
 
 
+def _key_relation(a, b):
+    """'equal' | 'different' | 'unknown' for two abstract dictionary keys"""
+    if isinstance(a, tuple) and isinstance(b, tuple):
+        if len(a) != len(b):
+            return "different"
+        rs = [_key_relation(x, y) for x, y in zip(a, b)]
+        return "different" if "different" in rs else "equal" if all(r == "equal" for r in rs) else "unknown"
+    if isinstance(a, tuple) != isinstance(b, tuple):
+        return "different" if _pyconst(a) or _pyconst(b) or isinstance(a, Bits) or isinstance(b, Bits) else "unknown"
+    ba = a if isinstance(a, Bits) else Bits.const(a) if isinstance(a, int) and not isinstance(a, bool) else None
+    bb = b if isinstance(b, Bits) else Bits.const(b) if isinstance(b, int) and not isinstance(b, bool) else None
+    if ba is not None and bb is not None:
+        if ba == bb:
+            return "equal"
+        for x, y in zip(ba.b, bb.b):
+            if x in (0, 1) and y in (0, 1) and x != y:
+                return "different"
+        return "unknown"
+    if _pyconst(a) and _pyconst(b):
+        try:
+            return "equal" if a == b else "different"
+        except Exception:
+            return "unknown"
+    if (isinstance(a, str) and bb is not None) or (isinstance(b, str) and ba is not None):
+        return "different"
+    return "unknown"
+
+
 def as_bits(v):
     if isinstance(v, Bits):
         return v
@@ -687,14 +715,17 @@ class Interp:
         except Exception:
             return self.unknown(v, node, func)
 
-    def unknown(self, v, node, func):
+    def unknown(self, v, node, func, kind="c"):
+        """choice point on a condition that is not decided by the current assignment.  kind 'c': the condition is opaque to the
+        interpreter (either outcome may be infeasible); kind 'r': an exact comparison decided by two-way refinement (each outcome pins
+        the source bits that make it true, so both outcomes are realised by some input)"""
         if self.unknown_cond == "error":
             raise AnalysisError("%s: condition %s does not evaluate in the abstract domain (%s)" % (
                 func.loc(node), ast.unparse(node)[:80], show(v)[:80]))
         txt = "%s|%s" % (func.qualname, ast.unparse(node))
         n = self.cond_counter.get(txt, 0)
         self.cond_counter[txt] = n + 1
-        key = ("c", txt, n)
+        key = (kind, txt, n)
         if key in self.asg:
             return bool(self.asg[key])
         raise Split([key])
@@ -716,7 +747,7 @@ class Interp:
             if keys and len(keys) <= self.max_split:
                 raise Split(keys)
         if c.refine is not None:
-            outcome = self.unknown(c, node, func)
+            outcome = self.unknown(c, node, func, kind="r")
             for want, pins in c.refine:
                 if outcome == want:
                     for k, v in pins.items():
@@ -788,6 +819,14 @@ class Interp:
                 if r[0] == "const":
                     v = self.folder.global_(func.module, e.id)
                     if not is_unknown(v):
+                        if isinstance(v, (dict, list, set)):
+                            # module-level containers are state: every interpreter (= every scenario) starts from the module's initial
+                            # value, and mutations made by the analysed code stay visible for the rest of that scenario only
+                            cache = self.__dict__.setdefault("_gcache", {})
+                            key = (r[1].relpath, e.id)
+                            if key not in cache:
+                                cache[key] = v.copy()
+                            return cache[key]
                         return v
                     key = (r[1].relpath, e.id)
                     cache = self.__dict__.setdefault("_gcache", {})
@@ -866,11 +905,16 @@ class Interp:
         expr = cls.attrs.get(attr)
         if expr is None:
             return NotImplemented
-        v = self.folder.fold(expr, cls.module)
-        if not is_unknown(v):
-            return v
         key = (cls.module.relpath, cls.name, attr)
         cache = self.__dict__.setdefault("_ccache", {})
+        if key in cache and cache[key] is not NotImplemented:
+            return cache[key]
+        v = self.folder.fold(expr, cls.module)
+        if not is_unknown(v):
+            if isinstance(v, (dict, list, set)):
+                # class-level containers are state: one object per interpreter (= per scenario), mutations stay visible within it
+                cache[key] = v
+            return v
         if key not in cache:
             cache[key] = NotImplemented
             try:
@@ -893,6 +937,35 @@ class Interp:
             elif isinstance(n, ast.Name) and n.id in cls.methods and n.id not in env:
                 env[n.id] = Ref("func", cls.methods[n.id])
         return env
+
+    def _abstract_key(self, k):
+        if isinstance(k, Bits):
+            k = k.subst(self.asg) if self.asg else k
+            return k.value() if k.is_const() else k
+        if isinstance(k, tuple):
+            return tuple(self._abstract_key(x) for x in k)
+        return k
+
+    def dict_lookup(self, d, k):
+        """lookup with an abstract key: ('hit', value) when a structurally identical key is stored (the same abstract value is the same
+        run-time value), ('miss', None) when the dict is empty or all keys are distinct constants, else ('unknown', None)"""
+        k = self._abstract_key(k)
+        try:
+            hash(k)
+        except TypeError:
+            return "unknown", None
+        if isinstance(k, (Sym, Lin, CondV, Comp)) and not d:
+            return "miss", None
+        keys = {}
+        for x, v in d.items():
+            keys[self._abstract_key(x)] = v
+        if k in keys:
+            return "hit", keys[k]
+        if not d:
+            return "miss", None
+        if all(_key_relation(k, x) == "different" for x in keys):
+            return "miss", None
+        return "unknown", None
 
     def e_Tuple(self, e, env, func):
         return tuple(self.eval(x, env, func) for x in e.elts)
@@ -1121,6 +1194,10 @@ class Interp:
                 return (a is b or a == b) if isinstance(op, ast.Is) else not (a is b or a == b)
             return CondV(type(op).__name__, a, b)
         if isinstance(op, (ast.In, ast.NotIn)):
+            if isinstance(b, dict) and not _hashable_const(a):
+                st, _v = self.dict_lookup(b, a)
+                if st != "unknown":
+                    return (st == "hit") if isinstance(op, ast.In) else (st != "hit")
             seq = self.concrete_iter(b) if not isinstance(b, (str, bytes)) else None
             if seq is not None:
                 res = False
@@ -1304,6 +1381,11 @@ class Interp:
                 if kk in base:
                     return base[kk]
                 raise Raised("KeyError", e, repr(kk))
+            st, v = self.dict_lookup(base, kk)
+            if st == "hit":
+                return v
+            if st == "miss":
+                raise Raised("KeyError", e, show(kk)[:40])
             if isinstance(kk, Bits):
                 srcs = kk.sources()
                 if not kk.has_top() and 0 < len(srcs) <= self.max_split:
@@ -1609,6 +1691,11 @@ class Interp:
             k = _int(args[0])
             if _hashable_const(k):
                 return recv.get(k, args[1] if len(args) > 1 else None)
+            st, v = self.dict_lookup(recv, k)
+            if st == "hit":
+                return v
+            if st == "miss":
+                return args[1] if len(args) > 1 else None
         if isinstance(recv, str) and name == "join" and len(args) == 1 and isinstance(args[0], (list, tuple)) \
                 and all(isinstance(x, str) for x in args[0]):
             return recv.join(args[0])
@@ -1999,6 +2086,19 @@ def _b_simple(name):
             seq = it.concrete_iter(args[0])
             if seq is not None:
                 return list(seq) if name == "list" else tuple(seq)
+        if name in ("bytes", "bytearray") and len(args) == 1 and not kwargs and isinstance(args[0], (list, tuple)) and args[0] \
+                and any(isinstance(x, Bits) for x in args[0]):
+            out = []
+            for x in args[0]:
+                b = as_bits(x)
+                if b is not None and it.asg:
+                    b = b.subst(it.asg)
+                if b is None or not b.fits_unsigned(8):
+                    out = None
+                    break
+                out.append(list(b.b[:8]))
+            if out is not None:
+                return BytesV(out)
         vals = [_int(a) for a in args]
         if all(_pyconst(v) or isinstance(v, (list, tuple)) and all(_pyconst(x) for x in v) for v in vals) and not kwargs:
             try:
@@ -2035,10 +2135,26 @@ for _n in ("abs", "min", "max", "str", "float", "bool", "hex", "sorted", "list",
 
 
 # ---------------------------------------------------------------------------
+ON_PATH = None   # callback(asg | None): told which explored path a consumer is looking at (report.Ctx.path)
+
+
+class _Results(list):
+    """list of (asg, result); iterating it announces each path to ON_PATH, so that obligations judged inside the loop body know
+    whether their path went through an unevaluated condition"""
+
+    def __iter__(self):
+        for item in list.__iter__(self):
+            if ON_PATH is not None:
+                ON_PATH(item[0])
+            yield item
+        if ON_PATH is not None:
+            ON_PATH(None)
+
+
 def explore(run, max_paths=MAX_PATHS):
     """run(asg) -> result, may raise Split; returns list of (asg, result).
     result for an abstract exception is the Raised instance."""
-    results = []
+    results = _Results()
     work = [{}]
     while work:
         asg = work.pop()
